@@ -1,33 +1,36 @@
 (** C01 — replicated execution is deterministic across all modules.  Exported statements only.
 
-    Scope (partial): the theorems are about the schedule-parameterised MODEL of every computation of the
-    custom modules that ranges over a Go map (Model.v).  A schedule assigns an arbitrary permutation to
-    every execution of every range statement — the only assumption is that it is a permutation.  Go
-    runtime incidentals that are not map iteration (goroutine timing, wall clock, memory layout) are
-    exhibited by the replica differential of the harness and inventoried by the generated facts, not
-    carried by these theorems. *)
+    Scope (partial): the theorems are about the schedule- and clock-parameterised MODEL of every computation of
+    the custom modules that ranges over a Go map or hands keys from one goroutine to another (Model.v).  A
+    schedule π assigns an arbitrary permutation to every execution of every range statement — the only
+    assumption is that it is a permutation.  A clock δ assigns, to every execution of a loop that consumes
+    omap.SortedMap.Range, the wall-clock time the consumer spends between two receives — NO assumption at
+    all.  Other Go runtime incidentals (memory layout; timers, selects, sync primitives, runtime queries —
+    none exists on the block-execution path today) are inventoried by the generated facts (every site must
+    match a reviewed table line) and exhibited by the replica differential of the harness (a replica with
+    injected stalls included), not carried by these theorems. *)
 From Coq Require Import List Bool ZArith Permutation Sorting.Sorted.
 Import ListNotations.
 Require Import Nib.C01.Model Nib.C01.Spec Nib.C01.PermSort Nib.C01.Proofs.
 Local Open Scope Z_scope.
 
 (** MAIN: for every history of messages of the custom modules (sudo edits, EVM commits, oracle
-    end-blocks, precompile registration and dispatch) and any two schedules, the final state and all
-    results are EQUAL — given the mechanisms the code relies on are in place ([cfg_ok]; the flags are
+    end-blocks, precompile registration and dispatch), any two map-iteration schedules and any two wall
+    clocks (= any two replicas), the final state and all results are EQUAL — given the mechanisms the code relies on are in place ([cfg_ok]; the flags are
     read off the regenerated facts in Gen/C01Oblig.v) and ABI selectors are unique. *)
 Theorem C01_determinism :
-  forall (c : cfg) (abi : list (Z * Z)) (h : list msg) (π π' : sched),
+  forall (c : cfg) (abi : list (Z * Z)) (h : list msg) (π π' : sched) (δ δ' : clock),
     cfg_ok c = true -> abi_ok abi -> valid_sched π -> valid_sched π' ->
-    run c abi π h = run c abi π' h.
-Proof. intros c abi h π π' Hc Ha H H'. exact (run_deterministic c abi π π' h Hc Ha H H'). Qed.
+    run c abi π δ h = run c abi π' δ' h.
+Proof. intros c abi h π π' δ δ' Hc Ha H H'. exact (run_deterministic c abi π π' δ δ' h Hc Ha H H'). Qed.
 Print Assumptions C01_determinism.
 
 (** hence every function of state and results — the app hash, the results hash — agrees *)
 Theorem C01_app_hash_deterministic :
-  forall (H : Type) (hash : state * list (list Z) -> H) c abi π π' h,
+  forall (H : Type) (hash : state * list (list Z) -> H) c abi π π' δ δ' h,
     cfg_ok c = true -> abi_ok abi -> valid_sched π -> valid_sched π' ->
-    hash (run c abi π h) = hash (run c abi π' h).
-Proof. intros H hash c abi π π' h Hc Ha Hv Hv'. exact (app_hash_deterministic hash c abi π π' h Hc Ha Hv Hv'). Qed.
+    hash (run c abi π δ h) = hash (run c abi π' δ' h).
+Proof. intros H hash c abi π π' δ δ' h Hc Ha Hv Hv'. exact (app_hash_deterministic hash c abi π π' δ δ' h Hc Ha Hv Hv'). Qed.
 Print Assumptions C01_app_hash_deterministic.
 
 (** sorted sites: journal.sortedDirties, Storage.SortedKeys, omap.ensureOrder, Sudoers.ToPb *)
@@ -63,15 +66,30 @@ Print Assumptions C01_sudo_stored_canonical.
 
 (** … and before the fix (b0d0e16 reversed) two schedules store different lists *)
 Theorem C01_sudo_refuted_before_fix :
-  exists h, run cfg_before_fix [] sched_id h <> run cfg_before_fix [] sched_rev h.
+  exists h, run cfg_before_fix [] sched_id clock_fast h <> run cfg_before_fix [] sched_rev clock_fast h.
 Proof. exact run_refuted_before_fix. Qed.
 Print Assumptions C01_sudo_refuted_before_fix.
 
 (** StateDB commit iterating journal.dirties directly: account numbers depend on the schedule *)
 Theorem C01_unsorted_dirties_refuted :
-  exists h, run cfg_dirties_unsorted [] sched_id h <> run cfg_dirties_unsorted [] sched_rev h.
+  exists h, run cfg_dirties_unsorted [] sched_id clock_fast h <> run cfg_dirties_unsorted [] sched_rev clock_fast h.
 Proof. exact run_refuted_unsorted_dirties. Qed.
 Print Assumptions C01_unsorted_dirties_refuted.
+
+(** omap.SortedMap.Range, goroutine timing: a producer goroutine that offers every key with a plain blocking send hands
+    over EVERY key, in order, whatever the wall clock of the consuming loop (delays before the 1st, 2nd, … receive) … *)
+Theorem C01_range_blocking_complete :
+  forall (delays keys : list Z), range_recv None delays keys = keys.
+Proof. exact range_recv_blocking. Qed.
+Print Assumptions C01_range_blocking_complete.
+
+(** … whereas a producer that gives up after a bound (select against a timer / default clause around the send) hands over a
+    prefix that depends on the clock: the SAME history under the SAME map schedule ends differently on a replica that stalls
+    between two pairs of the oracle tally *)
+Theorem C01_range_send_timeout_refuted :
+  exists h, run cfg_range_timeout [] sched_id clock_fast h <> run cfg_range_timeout [] sched_id (clock_stall_second 1500) h.
+Proof. exact run_refuted_range_timeout. Qed.
+Print Assumptions C01_range_send_timeout_refuted.
 
 (** omap: orderedKeys = sort (keys data) is an invariant of BuildFrom / Set / Delete / Union *)
 Theorem C01_omap_invariant :
